@@ -4,6 +4,11 @@
 package main
 
 import (
+	"fmt"
+	oraclemod "github.com/bandprotocol/chain/v3/x/oracle"
+	clienttypes "github.com/cosmos/ibc-go/v8/modules/core/02-client/types"
+	channeltypes "github.com/cosmos/ibc-go/v8/modules/core/04-channel/types"
+
 	"bytes"
 	"encoding/hex"
 	"sort"
@@ -185,15 +190,33 @@ func (c *caseT) request() {
 	client := r.PickStr("", "cid", "client-2")
 	msg := oracletypes.NewMsgRequestData(script, calldata, ask, min, client, sdk.NewCoins(sdk.NewInt64Coin("uband", 1_000_000_000)),
 		bandtesting.TestDefaultPrepareGas, execGas, bandtesting.FeePayer.Address, oracletypes.ENCODER_UNSPECIFIED)
-	errS := fx.Try(msg.ValidateBasic)
-	if errS == "" {
-		errS = fx.Atomically(c.ctx, func(ctx sdk.Context) error { _, err := c.ms.RequestData(ctx, msg); return err })
+	errS := ""
+	if r.Chance(1, 5) {
+		// the request arrives as an IBC packet (the oracle module's OnRecvPacket): the packet data has its own validation;
+		// min_count is also tried at 0 and above ask_count
+		minP := uint64(r.PickInt(0, 1, int(ask), int(ask), int(ask)+1))
+		data := oracletypes.NewOracleRequestPacketData(client, script, calldata, ask, minP, oracletypes.ENCODER_UNSPECIFIED,
+			sdk.NewCoins(sdk.NewInt64Coin("uband", 1_000_000_000)), bandtesting.TestDefaultPrepareGas, execGas)
+		packet := channeltypes.NewPacket(data.GetBytes(), 1, "consumer", "channel-0", "oracle", "channel-7", clienttypes.NewHeight(0, 10_000_000), 0)
+		errS = fx.Atomically(c.ctx, func(ctx sdk.Context) error {
+			ack := oraclemod.NewIBCModule(k).OnRecvPacket(ctx, packet, bandtesting.FeePayer.Address)
+			if !ack.Success() {
+				return fmt.Errorf("ibc-error-ack")
+			}
+			return nil
+		})
+		c.tr.Tag("request-by-ibc-packet")
+	} else {
+		errS = fx.Try(msg.ValidateBasic)
+		if errS == "" {
+			errS = fx.Atomically(c.ctx, func(ctx sdk.Context) error { _, err := c.ms.RequestData(ctx, msg); return err })
+		}
 	}
 	m := fx.M{"op": "request", "script": int(script)}
 	if errS == "" {
 		id := oracletypes.RequestID(k.GetRequestCount(c.ctx))
 		rq := k.MustGetRequest(c.ctx, id)
-		if r.Chance(1, 6) {
+		if rq.IBCChannel == nil && r.Chance(1, 6) {
 			// the request came over IBC on a channel that can no longer carry the response (closed channel, expired client):
 			// the result is stored all the same, only the packet is not sent
 			rq.IBCChannel = &oracletypes.IBCChannel{PortId: "oracle", ChannelId: "channel-7"}
@@ -301,7 +324,7 @@ func (c *caseT) report() {
 	var raws []oracletypes.RawReport
 	for i, e := range eids {
 		data := []byte("answer")
-		if n := r.PickInt(6, 6, 40, 260, 300); n != 6 {
+		if n := r.PickInt(6, 6, 40, 260, 300, 512); n != 6 {
 			// longer answers, also longer than the calldata limit (256) and within the report-data limit (512)
 			data = bytes.Repeat([]byte{byte('a' + e%26)}, n)
 		}
